@@ -111,6 +111,7 @@ class State:
         self.error = None      # (event, exception) when an event itself raised
         self.rejected = None   # (what, raised?, object unchanged?) of the last invalid call
         self.terminal = False  # reference model lost (invalid call changed the object): not explored further
+        self.raw_learnt = False  # randomize() did not go through the randn_c_RS seam
 
 
 def apply_event(st, ev):
@@ -126,6 +127,7 @@ def apply_event(st, ev):
         Nr, Nt = LAYOUTS[ev[1]]
         shape_t = sum(Nt) + (sum(st.ext_nte(ev)) if st.ext else 0)
         expected = st.rng.peek_next((sum(Nr), shape_t))
+        drawn_before = st.rng.count
         if st.ext:
             nte = st.ext_nte(ev)
             o.randomize(np.array(Nr), np.array(Nt), K, nte if len(nte) > 1 else int(nte[0]))
@@ -133,6 +135,14 @@ def apply_event(st, ev):
         else:
             o.randomize(np.array(Nr), np.array(Nt), K)
         st.layout, st.raw = (Nr, Nt), expected
+        if st.rng.count == drawn_before:
+            # the implementation drew the channel without calling multiuser.randn_c_RS (the property
+            # does not say HOW the channel is drawn): the raw channel of the model is then what the
+            # object reports as its global matrix, with the model's current path loss divided out;
+            # every other view and every later event is still judged against it
+            factor = model_big(st, raw=np.ones((sum(Nr), shape_t), dtype=complex))
+            st.raw = np.asarray(o.big_H) / factor
+            st.raw_learnt = True
     elif kind == "init":
         Nr, Nt = LAYOUTS[ev[2]]
         if st.ext:
@@ -166,7 +176,7 @@ def apply_event(st, ev):
         st.W = W
     elif kind == "bad":
         # a call the library must REJECT; the object has to stay exactly as it was
-        before = bfs.digest(vars(o), 12)
+        before = bfs.digest(bfs.state_of(o), 12)
         Nr, Nt = st.layout
         other = "B" if (Nr, Nt) == LAYOUTS["A"] else "A"
         oNr, oNt = LAYOUTS[other]
@@ -188,7 +198,7 @@ def apply_event(st, ev):
                 o.noise_var = -0.5
         except (ValueError, AssertionError) as e:
             raised = e
-        st.rejected = (ev[1], raised is not None, bfs.digest(vars(o), 12) == before)
+        st.rejected = (ev[1], raised is not None, bfs.digest(bfs.state_of(o), 12) == before)
     elif kind == "rd":
         read_view(st, ev[1])
     elif kind == "tx":
@@ -400,8 +410,13 @@ def check_views(chk, st, hist, cls):
             continue
         y = big @ x
         if ln is not None:
-            if not ok(ln, exp_noise):
-                report("last_noise", "not_the_scripted_draw_times_sqrt_noise_var", ln, exp_noise)
+            # the statement speaks of "exactly the noise reported as last noise": which generator call
+            # produced it is free.  Through the seam we know the draw; otherwise only its shape is judged
+            if np.shape(ln) != np.shape(exp_noise):
+                report("last_noise", "shape", "shape %r" % (np.shape(ln),), np.shape(exp_noise))
+                continue
+            chk.outcome("noise_source", "scripted_draw_times_sqrt_noise_var" if ok(ln, exp_noise)
+                        else "other_generator_call")
             y = y + ln
         if st.W is not None:
             from scipy.linalg import block_diag
@@ -550,8 +565,8 @@ def run_bfs(chk, ext, depth, inits, tier, k=2):
     def canon(hist, st):
         if st.error is not None:
             return ("error", tuple(map(str, hist)))
-        d = bfs.digest(vars(st.obj), 10)
-        chk.outcome("cache_pattern", (cls,) + tuple(sorted(k for k, v in vars(st.obj).items() if v is None)))
+        d = bfs.digest(bfs.state_of(st.obj), 10)
+        chk.outcome("cache_pattern", (cls,) + tuple(sorted(k for k, v in bfs.state_of(st.obj).items() if v is None)))
         model = (str(st.layout), st.NtE and tuple(st.NtE), bfs.digest(st.raw), str(st.P is None),
                  bfs.digest(st.P), bfs.digest(st.E), st.nv, bfs.digest(st.W), st.rng.count)
         return (cls, K, d, model)
